@@ -764,7 +764,8 @@ class Run:
                     causes.add("other:index")
         # material content: required only when the isotherm was stored with the content the file holds for that name
         file_mat = self.models[f].mats.get(e["mat"])
-        consistent = file_mat is not None and file_mat == _flatten(s.material.properties)
+        # (type-strict: 0 and 0.0 are equal in python but are different content for the isotherm id)
+        consistent = file_mat is not None and canon(file_mat) == canon(_flatten(s.material.properties))
         if consistent and _props_causes(file_mat, r.material.properties):
             # known defect, stated exactly: the retrieved isotherm carries the properties of the registry entry of
             # that name (none when the registry has no entry) instead of the file's
